@@ -10,8 +10,8 @@
    requested without checkpoint arms FailedPause, goes aborting, cancels the task and leaves nothing on the stack.
    Partial: these steps are not composed into one end-to-end theorem ("the call ends Interrupted with state idle"):
    that needs the state invariant of Proofs/RE_Inv.v (stack alignment, pc typing); the implementation-side oracle
-   checks the end-to-end statement on the corpus.  Note: in the code (and the model) the window opened by
-   clear_checkpoint lasts until the call ends -- a later `checkpoint` does not re-establish resumability. *)
+   checks the end-to-end statement on the corpus.  The window opened by clear_checkpoint ends at the next EXPLICIT
+   checkpoint (repaired defect C09-a, fixes/C09-a.diff); implicit checkpoints (stage, close_run, ...) do not end it. *)
 From Coq Require Import List.
 From BV Require Import Engine.RE Engine.REInst Proofs.RE_Ctl Proofs.RE_Replay Proofs.RE_CtlExamples.
 Import ListNotations.
